@@ -106,7 +106,9 @@ static std::string dirname_of(const std::string &p) {
 static OpenDesc &new_desc(int kind) {
     int fd = G.next_fd;
     while (G.fds.count(fd)) fd++;
-    if (G.w.tty_state == 1 && !G.fds.count(0)) fd = 0;   // stdin is closed in this process: the lowest free descriptor is 0
+    // standard descriptors that are closed in this process are handed out first (lowest free number)
+    if (G.w.stdout_kind == 3) { if (!G.fds.count(2)) fd = 2; if (!G.fds.count(1)) fd = 1; }
+    if (G.w.tty_state == 1 && !G.fds.count(0)) fd = 0;
     OpenDesc &d = G.fds[fd];
     d.fd = fd; d.id = G.next_descid++; d.kind = kind; d.opi = t_op ? t_op->opi : -1; d.thr = t_thr;
     return d;
@@ -183,7 +185,8 @@ long k_write(int fd, const void *buf, size_t n) {
     auto it = G.fds.find(fd);
     // stdout/stderr are shared streams: glibc holds the FILE lock around this callback, and a thread parked here
     // would make every other thread block on a lock the scheduler cannot see. No preemption inside such a write.
-    if (!(it != G.fds.end() && it->second.kind >= 2)) sched_point(SP_IO);
+    if (!(fd <= 2 || (it != G.fds.end() && it->second.kind >= 2))) sched_point(SP_IO);
+    it = G.fds.find(fd);   // the table may have changed while this thread was parked
     sim_step();
     if (it != G.fds.end() && it->second.kind == 1) {  // write() on a socket == send(flags 0), already a scheduling point
         return k_send(fd, buf, n, 0);
@@ -728,9 +731,11 @@ std::string host_strftime(const World &w, const std::string &fmt, int64_t t) { r
 static void streams_begin() {
     G.fds.clear(); g_stdio_bufs.clear();
     if (G.w.tty_state != 1) { OpenDesc d0; d0.fd = 0; d0.kind = 0; d0.path = "<stdin>"; G.fds[0] = d0; }   // tty_state 1: the process runs with descriptor 0 closed
-    OpenDesc d1; d1.fd = 1; d1.kind = 2; d1.path = "<stdout>"; d1.flags = O_WRONLY; d1.id = G.next_descid++; G.fds[1] = d1;
-    OpenDesc d2; d2.fd = 2; d2.kind = 3; d2.path = "<stderr>"; d2.flags = O_WRONLY; d2.id = G.next_descid++; G.fds[2] = d2;
-    g_sim_stdout = cookie_stream(1, "w", G.w.stdout_kind == 0 ? _IOLBF : _IOFBF, G.w.stdout_kind == 0 ? 1024 : 4096);
+    if (G.w.stdout_kind != 3) {
+        OpenDesc d1; d1.fd = 1; d1.kind = 2; d1.path = "<stdout>"; d1.flags = O_WRONLY; d1.id = G.next_descid++; G.fds[1] = d1;
+        OpenDesc d2; d2.fd = 2; d2.kind = 3; d2.path = "<stderr>"; d2.flags = O_WRONLY; d2.id = G.next_descid++; G.fds[2] = d2;
+    }
+    g_sim_stdout = cookie_stream(1, "w", G.w.stdout_kind == 0 ? _IOLBF : _IOFBF, G.w.stdout_kind == 0 ? 1024 : 4096);   // closed: glibc cannot stat it and buffers fully
     g_sim_stderr = cookie_stream(2, "w", _IONBF, 0);
     g_saved_stdout = stdout; g_saved_stderr = stderr;
     stdout = g_sim_stdout; stderr = g_sim_stderr;
